@@ -192,10 +192,11 @@ def plan(tier, seed):
                 batches.append({"gen": "w3", "scenario": {"side": "client", "key_mode": km, "psk": psk, "policy": "sent"},
                                 "lo": lo, "hi": min(total3, lo + step), "seed": rng.randrange(1 << 30),
                                 "stride": 3 if tier == "quick" else 1})
-    # interleave so that a budget cut-off loses a bit of everything rather than all of W3
-    order = list(range(len(batches)))
-    random.Random(seed).shuffle(order)
-    return [batches[i] for i in order]
+    # the few (cheap) W3 batches first, the rest interleaved so that a budget cut-off loses a bit of everything
+    w3 = [b for b in batches if b["gen"] == "w3"]
+    rest = [b for b in batches if b["gen"] != "w3"]
+    random.Random(seed).shuffle(rest)
+    return w3 + rest
 
 
 # ================================================================== model (the reference state machine)
